@@ -51,7 +51,7 @@ def gen(rng):
         vol = rng.choice(L['vols']) if (cross and L['vols']) else rng.choice(vols)
         wd = L['work'][vol]
         aux = home + '/aux' if vol == '/' else vol + '/aux'
-        nm = rng.choice(['foo', 'foo', 'bar', 'sp ace', 'ü', 'new\nline']) + (str(i) if rng.random() < 0.5 else '')
+        nm = rng.choice(['foo', 'foo', 'bar', 'sp ace', 'ü', 'new\nline', 'report.pdf', 'a.tar.gz', '.hidden.txt', 'dot.', 'v1.2']) + (str(i) if rng.random() < 0.5 else '')
         p = wd + '/' + nm
         if p in args:
             continue
@@ -157,11 +157,17 @@ def check(sim, case, st):
             PINS.setdefault(sig, list(CUR['k']))
             res.append((sig, '%s (kill %s; argv %r)' % (msg, where, spec['argv'])))
         # 1. every argument complete at its origin or complete in a trash dir
+        claimed = set()
         for nm in named:
             bt = Wd.subtree(before, nm.loc)
             at_origin = Wd.same_tree(bt, Wd.subtree(snap, nm.loc))
-            in_trash = [(T, N) for (T, N) in newp if OP.affinity(N, posixpath.basename(nm.loc)) and
-                        Wd.same_tree(bt, Wd.subtree(snap, T + '/files/' + N))]
+            # (the name an entry gets in files/ is the implementation's business: any new payload that is a complete copy counts,
+            # one per argument; a name derived from the argument's is preferred when several arguments have the same content)
+            cands = [(T, N) for (T, N) in newp if (T, N) not in claimed and Wd.same_tree(bt, Wd.subtree(snap, T + '/files/' + N))]
+            cands.sort(key=lambda c: (not OP.affinity(c[1], posixpath.basename(nm.loc)), c))
+            in_trash = cands[:1]
+            if not at_origin and in_trash:
+                claimed.add(in_trash[0])
             if not at_origin and not in_trash:
                 bad('entry-lost-or-torn', 'entry %r is complete neither at its origin nor under files/ of a trash dir: origin now %r'
                     % (nm.loc, sorted(Wd.subtree(snap, nm.loc))[:6]), nm)
